@@ -22,6 +22,13 @@ fn backtrace_inside_a_signal_handler() {
             println!("backtrace in handler: {names:?}");
             assert!(names.iter().any(|n| n.ends_with("work")), "the interrupted function must be in the backtrace");
             assert!(names.iter().any(|n| n.ends_with("main")), "main must be in the backtrace");
+            let k = names.iter().position(|n| n.ends_with("work")).unwrap() as u32;
+            dbg.set_frame_into_focus(k).unwrap();
+            let vars: Vec<String> = dbg.read_local_variables().unwrap().iter().map(|v| format!("{}={}", v.identity(), bugstalker::ui::generic::variable::render_value(v.value()))).collect();
+            let args: Vec<String> = dbg.read_argument(bugstalker::debugger::variable::dqe::Dqe::Variable(bugstalker::debugger::variable::dqe::Selector::Any)).unwrap().iter().map(|v| format!("{}={}", v.identity(), bugstalker::ui::generic::variable::render_value(v.value()))).collect();
+            println!("frame {k} (work): locals {vars:?} args {args:?}");
+            assert!(args.iter().any(|a| a == "n=u64(10)"), "{args:?}");
+            assert!(vars.iter().any(|a| a == "i=u64(3)"), "{vars:?}");
             return;
         }
         r = dbg.continue_debugee_with_reason().unwrap();
